@@ -690,4 +690,48 @@ theorem built_merge (cfg : Cfg) (h : Heap) (wf : WfDefaults cfg h) (own : List (
 theorem built_extends (cfg : Cfg) (h : Heap) (own : List (Bytes × Bytes)) : Extends h (built cfg h own).2 :=
   (applyOwn_inv h own _ _ (copyDefaults_callInv cfg.hdr h)).1.ext
 
+
+/-! ### no shared backing arrays -/
+
+/-- every value slice of a returned target lives in an array allocated during its own call
+(index at or above the heap size before the call), and two keys of one target never share an array -/
+theorem callL_arrays (cfg : Cfg) (ls : List Bytes) (h : Heap) (t : Target) (ht : (callL cfg ls h).1 = .ok t) :
+    (∀ k s, hlookup t.header k = some s → 0 < s.cap → h.length ≤ s.arr ∧ s.arr < (callL cfg ls h).2.2.length) ∧
+    (∀ k1 s1 k2 s2, hlookup t.header k1 = some s1 → hlookup t.header k2 = some s2 → 0 < s1.cap → 0 < s2.cap →
+      s1.arr = s2.arr → k1 = k2) := by
+  rcases callL_fold cfg ls h with ⟨_, h2⟩ | ⟨own, o1, o2⟩
+  · exact absurd ht (h2 t)
+  · have inv := (applyOwn_inv h own _ _ (copyDefaults_callInv cfg.hdr h)).1
+    rw [o1, o2 t ht]
+    exact ⟨fun k s hk hc => ⟨inv.fresh k s hk hc, arr_lt_of_ok (inv.ok k s hk) hc⟩, inv.distinct⟩
+
+/-- the arrays of the targets handed out by successive calls are pairwise different, and none
+of them existed before the first call (so none is an array of the default header map) -/
+theorem callsL_arrays (cfg : Cfg) : ∀ (n : Nat) (ls : List Bytes) (h : Heap),
+    (∀ r ∈ (callsL cfg n ls h).1, ∀ t, r.1 = .ok t → ∀ k s, hlookup t.header k = some s → 0 < s.cap →
+      h.length ≤ s.arr ∧ s.arr < r.2.length) ∧
+    List.Pairwise (fun (r1 r2 : Outcome Target × Heap) => ∀ t1 t2, r1.1 = .ok t1 → r2.1 = .ok t2 →
+      ∀ k1 s1 k2 s2, hlookup t1.header k1 = some s1 → hlookup t2.header k2 = some s2 → 0 < s1.cap → 0 < s2.cap →
+        s1.arr ≠ s2.arr) (callsL cfg n ls h).1 := by
+  intro n
+  induction n with
+  | zero => intro ls h; simp [callsL]
+  | succ n ih =>
+    intro ls h
+    obtain ⟨i1, i2⟩ := ih (callL cfg ls h).2.1 (callL cfg ls h).2.2
+    have hext := (callL_frame cfg ls h).1
+    simp only [callsL]
+    constructor
+    · intro r hr t ht k s hk hc
+      simp only [List.mem_cons] at hr
+      rcases hr with rfl | hr
+      · exact (callL_arrays cfg ls h t ht).1 k s hk hc
+      · have := i1 r hr t ht k s hk hc
+        exact ⟨by have := hext.1; omega, this.2⟩
+    · refine List.Pairwise.cons ?_ i2
+      intro r2 hr2 t1 t2 ht1 ht2 k1 s1 k2 s2 hk1 hk2 c1 c2 heq
+      have a1 := (callL_arrays cfg ls h t1 ht1).1 k1 s1 hk1 c1
+      have a2 := i1 r2 hr2 t2 ht2 k2 s2 hk2 c2
+      omega
+
 end Vegeta.Proofs.HTTPHeap
